@@ -77,8 +77,9 @@ TProcessExact ==
                   /\ Ev.exact = TRUE                 \* driver: every output was exactly representable on the grid
                   /\ \E f \in (IF IsMulti(p) /\ ~Bypass(p) /\ s.phi = -1
                                THEN PhaseCandidates(RL(p), RM(p), p.h) ELSE {s.phi}) :
-                        /\ \A j \in 1..cnt : Ev.yr[j] = ExpRe(p, xr, xi, s.prod + j - 1, f)
-                        /\ IsCplx(p) => \A j \in 1..cnt : Ev.yi[j] = ExpIm(p, xr, xi, s.prod + j - 1)
+                        \* "= TRUE": evaluated as one expression (TLC would otherwise recurse per element)
+                        /\ (\A j \in 1..cnt : Ev.yr[j] = ExpRe(p, xr, xi, s.prod + j - 1, f)) = TRUE
+                        /\ (IsCplx(p) => \A j \in 1..cnt : Ev.yi[j] = ExpIm(p, xr, xi, s.prod + j - 1)) = TRUE
                         /\ inst' = [inst EXCEPT ![Ev.id] = [@ EXCEPT !.xr = xr, !.xi = xi, !.prod = k, !.phi = f,
                                                                      !.nin = Len(xr)]]
 
@@ -107,9 +108,9 @@ TXcorr ==
     /\ LET n1 == Len(Ev.ar)  n2 == Len(Ev.br) IN
        /\ Len(Ev.yr) = n1 + n2 - 1 /\ Len(Ev.yi) = n1 + n2 - 1
        /\ Ev.exact = TRUE
-       /\ \A j \in 1..(n1 + n2 - 1) :
+       /\ (\A j \in 1..(n1 + n2 - 1) :
              /\ Ev.yr[j] = XcorrRe(Ev.ar, Ev.ai, Ev.br, Ev.bi, j - 1 - (n2 - 1))
-             /\ Ev.yi[j] = XcorrIm(Ev.ar, Ev.ai, Ev.br, Ev.bi, j - 1 - (n2 - 1))
+             /\ Ev.yi[j] = XcorrIm(Ev.ar, Ev.ai, Ev.br, Ev.bi, j - 1 - (n2 - 1))) = TRUE
     /\ inst' = inst
 
 (* FftFilter emits the same sequence as FirFilter, in multiples of its block size *)
